@@ -26,12 +26,15 @@ func (f *Fam) genInit(r *rand.Rand) string {
 		pick(r, 10000000000000000, 100000000000000000, 1000000000000, 0, 1000000000000000000),
 		pick(r, 0, 1000, 10000, 10000))
 	fmt.Fprintf(&sb, " daoo=%s daot=%d aclo=%s", hx(Keys[r.Intn(3)].Addr), pick(r, 0, 1000, 50000000), hx(Keys[r.Intn(3)].Addr))
-	fmt.Fprintf(&sb, " mods=%s,%s,%s,%s keys=", poolAddr, feeAddr, posAddr, daoAddr)
-	for i := 0; i < NKeys; i++ {
+	fmt.Fprintf(&sb, " stored=%d mods=%s,%s,%s,%s keys=", NKeys, poolAddr, feeAddr, posAddr, daoAddr)
+	for i := 0; i < NAll; i++ {
 		if i > 0 {
 			sb.WriteByte(',')
 		}
 		sb.WriteString(hx(Keys[i].Addr))
+	}
+	for i := NKeys; i < NAll; i++ { // the multisignature accounts
+		fmt.Fprintf(&sb, " acc %s %d", hx(Keys[i].Addr), pick(r, 0, 1000000, 100000000, 1000000000))
 	}
 	nv := r.Intn(7)
 	perm := r.Perm(NKeys)
@@ -184,8 +187,14 @@ func (f *Fam) genTx1(r *rand.Rand, s *Snapshot) string {
 		ki = cands[r.Intn(len(cands))]
 		forced = []string{"unjail", "unstake", "stake"}[map[bool]int{true: 0, false: 1}[want < 12]+map[bool]int{true: 1, false: 0}[want >= 25]]
 	}
+	multi := false
+	if forced == "" && r.Intn(8) == 0 {
+		// a multisignature account acts; it never stakes (a consensus key cannot be a multisignature key)
+		ki = NKeys + r.Intn(NAll-NKeys)
+		multi = true
+	}
 	addr := hx(Keys[ki].Addr)
-	other := hx(Keys[r.Intn(NKeys)].Addr)
+	other := hx(Keys[r.Intn(NAll)].Addr)
 	bal := balOf(s, addr, Denom)
 	ms := f.minStake
 	amtNear := func(x sdk.Int) sdk.Int {
@@ -221,6 +230,9 @@ func (f *Fam) genTx1(r *rand.Rand, s *Snapshot) string {
 			ki, addr, signer = i, who, i
 			bal = balOf(s, addr, Denom)
 		}
+	}
+	if multi && x < 25 {
+		x = 52 + r.Intn(23)
 	}
 	switch {
 	case x < 25:
@@ -298,7 +310,7 @@ func (f *Fam) genTx1(r *rand.Rand, s *Snapshot) string {
 	}
 	// who signs: usually the declared signer; sometimes another key (attack)
 	if r.Intn(25) == 0 {
-		signer = r.Intn(NKeys)
+		signer = r.Intn(NAll)
 	}
 	req := f.requiredFee(kind).Int64()
 	fee := pick(r, req, req, req, req, req, req, req+1, req*2, 0, req-1)
@@ -307,7 +319,7 @@ func (f *Fam) genTx1(r *rand.Rand, s *Snapshot) string {
 	}
 	mut := "none"
 	if r.Intn(16) == 0 {
-		mut = []string{"sig", "fee", "memo", "ent", "emptysig", "trunc", "garbage"}[r.Intn(7)]
+		mut = []string{"sig", "fee", "memo", "ent", "emptysig", "trunc", "garbage", "msswap", "msdrop"}[r.Intn(9)]
 	}
 	pk := 1
 	if r.Intn(5) == 0 {
